@@ -11,18 +11,22 @@
    so the verdict of a step does not depend on earlier defects, and if every step agrees with
    the model then the final dict is the model's [run] of the whole history.
 
-   Verdict code: 0 = agreement everywhere; otherwise  step * 1000 + clause * 10 + kind  for the
-   FIRST failing step (1-based; number of operations + 1 = the final observations), where
+   Verdict code: 0 = agreement everywhere; otherwise  step * 1000 + clause * 10 + kind  of one
+   failing step (1-based; number of operations + 1 = the final observations): the first one that
+   is not a plain clause-tagged "implementation <> Spec" if there is one, else the first, where
      kind   1  implementation <> model, but = Spec                      (model not faithful)
             2  implementation <> Spec (a failing input), = model or out-of-domain raise
-            3  both raise, different exception class than modelled
+            (3  unused: when implementation and model both raise, the exception CLASS is not
+               compared — either NumPy accepts the operation, which is then already a kind-2
+               verdict, or NumPy rejects it too and the operation is outside the property)
             4  a read changed the dict
             5  implementation <> Spec and <> model
             6  the dict after construction is not empty
             7  Spec/NpAssign.v <> what the real NumPy shadow array did at this step (the Spec or
                the harness is wrong; says nothing about the implementation)
      clause 0 none (inside the proved domain)   3 value_ndim   4 fancy_in_range   5 fancy_nonempty
-            6 fancy_value   7 bool_mask   10 empty_tuple_key *)
+            6 fancy_value   7 bool_mask   8 bool_mask read on a 1-d array (True/False are used
+            as the integers 1/0: wrong values, no error)   10 empty_tuple_key *)
 From Coq Require Import ZArith List Bool.
 From Verif Require Import Py PyExt G_slicing G_dok PySlice Shape Slicing COO NpAssign DOK Judge.
 Import ListNotations.
@@ -78,12 +82,12 @@ Definition get_clause (sh : list Z) (k : key) : Z :=
   match k with
   | KBasic es => if negb (nonempty_key es) then 10 else 0
   | KFancy ls => if negb (fancy_in_range ls sh) then 4 else 0
-  | KMask _ => 7
+  | KMask _ => match sh with [_] => 8 | _ => 7 end
   end.
 
-Definition verdict (agree_spec agree_model both_raise class_ok : bool) (cl : Z) : Z :=
+Definition verdict (agree_spec agree_model both_raise : bool) (cl : Z) : Z :=
   if agree_spec then
-    (if agree_model then (if class_ok then 0 else cl * 10 + 3) else cl * 10 + 1)
+    (if agree_model then 0 else cl * 10 + 1)
   else if agree_model || both_raise then cl * 10 + 2 else cl * 10 + 5.
 
 Definition judge_step (sh : list Z) (fill : Z) (prev : jstate) (s : jstep) : Z :=
@@ -101,13 +105,12 @@ Definition judge_step (sh : list Z) (fill : Z) (prev : jstate) (s : jstep) : Z :
       | _, _ => false
       end in
     let both_raise := match m, out with Raise _, JExc _ => true | _, _ => false end in
-    let class_ok := match m, out with Raise e, JExc c => exc_code e =? c | _, _ => true end in
     let agree_spec :=
       match sp with
       | Some a' => match out with JOk => state_means sh fill after a' | _ => false end
       | None => true      (* NumPy rejects the assignment: outside the property *)
       end in
-    verdict agree_spec agree_model both_raise class_ok cl
+    verdict agree_spec agree_model both_raise cl
   | JGet k =>
     let m := getitem sh fill prev k in
     let sp := np_getitem sh (abs fill prev) k in
@@ -120,13 +123,12 @@ Definition judge_step (sh : list Z) (fill : Z) (prev : jstate) (s : jstep) : Z :
       | _, _ => false
       end in
     let both_raise := match m, out with Raise _, JExc _ => true | _, _ => false end in
-    let class_ok := match m, out with Raise e, JExc c => exc_code e =? c | _, _ => true end in
     let agree_spec :=
       match sp with
       | Some (rs, rf) => match out with JVal s f => zl_eqb rs s && zl_eqb rf f | _ => false end
       | None => true
       end in
-    verdict agree_spec agree_model both_raise class_ok cl
+    verdict agree_spec agree_model both_raise cl
   end.
 
 Definition judge_final (sh : list Z) (fill : Z) (st : jstate) (f : jfinal) : Z :=
@@ -182,16 +184,36 @@ Definition judge_spec (c : hist_case) : Z :=
     end in
   go 1 (materialise sh (np_full fill)) steps.
 
+(* all non-zero step verdicts of a history, each as step * 1000 + clause * 10 + kind.  Steps are
+   judged independently (each from the implementation's own previous dict), so judging goes on
+   after a failing step. *)
+Definition hist_codes (c : hist_case) : list Z :=
+  let '(sh, fill, s0, steps, fin) := c in
+  let fix go (i : Z) (prev : jstate) (l : list jstep) : list Z :=
+    match l with
+    | [] => let v := judge_final sh fill prev fin in if v =? 0 then [] else [i * 1000 + v]
+    | s :: r =>
+      let v := judge_step sh fill prev s in
+      let rest := go (i + 1) (snd (fst s)) r in
+      if v =? 0 then rest else (i * 1000 + v) :: rest
+    end in
+  go 1 s0 steps.
+
+(* a verdict that is NOT the plain "implementation <> Spec under a named clause" *)
+Definition untagged (code : Z) : bool :=
+  let rest := code mod 1000 in
+  negb ((rest mod 10 =? 2) && negb (rest / 10 =? 0)).
+
+(* the verdict of a history: Spec-vs-NumPy trouble first; then the first untagged disagreement
+   (so that a known clause never hides another disagreement of the same history); then the first
+   clause-tagged one *)
 Definition judge_hist (c : hist_case) : Z :=
   let vs := judge_spec c in
   if negb (vs =? 0) then vs else
   let '(sh, fill, s0, steps, fin) := c in
   if negb (state_eqb s0 []) then 1000 + 6 else
-  let fix go (i : Z) (prev : jstate) (l : list jstep) : Z :=
-    match l with
-    | [] => let v := judge_final sh fill prev fin in if v =? 0 then 0 else i * 1000 + v
-    | s :: r =>
-      let v := judge_step sh fill prev s in
-      if v =? 0 then go (i + 1) (snd (fst s)) r else i * 1000 + v
-    end in
-  go 1 s0 steps.
+  let codes := hist_codes c in
+  match filter untagged codes with
+  | u :: _ => u
+  | [] => match codes with t :: _ => t | [] => 0 end
+  end.
